@@ -105,6 +105,15 @@ def postLog (nm : Name) (user : UserTok) (kind : PKind) (deliver creator : Bool)
   | .notif => if deliver && !creator then [⟨nm, .tok user, .initialized⟩] else []
   | _ => []
 
+/-- the handler invocation of a POST on a stateless endpoint that is answered at once
+(a notification is handled by the temporary session before the POST is acknowledged) -/
+def slLog (user : UserTok) (kind : PKind) : List LogEnt :=
+  match kind with
+  | .init => [⟨.e, .tok user, .initialize⟩]
+  | .ping => [⟨.e, .tok user, .ping⟩]
+  | .notif => [⟨.e, .tok user, .initialized⟩]
+  | _ => []
+
 def postStatus (kind : PKind) : St :=
   match kind with
   | .notif => .code 202
@@ -161,13 +170,7 @@ def modelOp (d : RState) (op : Op) : Option ROut :=
                            pend := d.pend ++ [⟨tag, .slow none nslow⟩] }
         else
           let st2 := doL st1 (.postEnd none false)
-          -- (a notification is handled by the temporary session before the POST is acknowledged)
-          let log : List LogEnt := match kind with
-            | .init => [⟨.e, .tok user, .initialize⟩]
-            | .ping => [⟨.e, .tok user, .ping⟩]
-            | .notif => [⟨.e, .tok user, .initialized⟩]
-            | _ => []
-          some { base with st := st2, status := (if kind == .notif then .code 202 else .code 200), log := log }
+          some { base with st := st2, status := (if kind == .notif then .code 202 else .code 200), log := slLog user kind }
       else
         let i := sid.getD st.next
         let creator := sid.isNone
